@@ -304,12 +304,14 @@ def suite_fps_cli(seed, tier):
 
 def search_c16(seed, tier, failures):
     import replay_util
-    return replay_util.make_search([suite_file_seq, suite_batches, suite_fps_cli])(seed, tier, failures)
+    from suite_fpsgen import suite_fpsgen
+    return replay_util.make_search([suite_file_seq, suite_batches, suite_fps_cli, suite_fpsgen])(seed, tier, failures)
 
 
 def replay_c16(payload):
     import replay_util
-    return replay_util.make_replay([suite_file_seq, suite_batches, suite_fps_cli])(payload)
+    from suite_fpsgen import suite_fpsgen
+    return replay_util.make_replay([suite_file_seq, suite_batches, suite_fps_cli, suite_fpsgen])(payload)
 
 
 def finding_multi_file_skip_invalid():
